@@ -922,7 +922,7 @@ macro_rules! v5_ack_parse_long_props {
             body[5] = 31; // Reason String
             body[6] = 0;
             body[7] = 125;
-            body[8] = c;
+            body[132] = c; // last string byte (keeps the UTF-8 automaton state concrete up to the end)
             let (q, used) = v5_0::$ty::<u16>::parse(&body[..]).unwrap();
             assert!(used == 133, "[C02,C04] parse consumes exactly the body (two-byte Property Length)");
             assert!(q.packet_id() == id, "[C02] identifier survives");
@@ -931,7 +931,7 @@ macro_rules! v5_ack_parse_long_props {
             assert!(enc.len() == 136, "[C02,C04] re-serialisation has the same length");
             assert!(enc[0] == $fh && enc[1] == 0x85 && enc[2] == 0x01, "[C02,C03] fixed header and Remaining Length 133 = 85 01");
             assert!(
-                enc[3] == body[0] && enc[4] == body[1] && enc[5] == 0 && enc[6] == 0x80 && enc[7] == 0x01 && enc[8] == 31 && enc[9] == 0 && enc[10] == 125 && enc[11] == c && enc[135] == b'a',
+                enc[3] == body[0] && enc[4] == body[1] && enc[5] == 0 && enc[6] == 0x80 && enc[7] == 0x01 && enc[8] == 31 && enc[9] == 0 && enc[10] == 125 && enc[11] == b'a' && enc[135] == c,
                 "[C02,C03] re-serialised body equals the parsed bytes"
             );
             core::mem::forget(enc);
